@@ -770,15 +770,36 @@ func foldedOK(steps []chainStep, needIDNA bool) (bool, string) {
 	if lo < 0 {
 		return false, "value is not case-folded"
 	}
-	if lo > nf {
+	// all positions (outermost first): the innermost lowering needs an NFC inside it, the outermost one an NFC outside it
+	loInner, nfInner := lo, nf
+	for i, s := range steps {
+		cal := s.Callee
+		if j := strings.Index(cal, "<"); j > 0 {
+			cal = cal[:j]
+		}
+		if c17Lower[cal] {
+			loInner = i
+		}
+		if c17NFC[cal] {
+			nfInner = i
+		}
+	}
+	if loInner > nfInner {
 		return false, "case folding is applied before NFC normalisation"
+	}
+	if lo < nf {
+		// lower-casing is not closed under NFC: `J` + U+030C has no precomposed form, its lower-case `j` + U+030C
+		// composes to U+01F0 (likewise H+U+0331 → U+1E96, U+03AA+U+0301 → U+0390). A key whose last step is the
+		// lowering is not in NFC: a second application changes it, and the upper-case spelling gets another key than
+		// the (normalised) lower-case spelling of the same address
+		return false, "lower-casing is the last normalisation step – it is not followed by NFC: the lower-case form of a letter + combining mark can have a precomposed form its upper-case form lacks (J + U+030C → U+01F0), so the key is not NFC, not idempotent, and the letter-case variants of one address get two keys"
 	}
 	if needIDNA {
 		id := chainHas(steps, c17IDNA)
 		if id < 0 {
 			return false, "domain is not IDNA-decoded (A-label and U-label spellings get different keys)"
 		}
-		if id < nf {
+		if id < nfInner && id < nf {
 			return false, "IDNA decoding is applied after NFC"
 		}
 	}
